@@ -125,6 +125,20 @@ func c04Input(c *wk.Case) (string, string) {
 		}
 		return sb.String(), fmt.Sprintf("scoped-nesting-%d", d)
 	}
+	if c.Index%32 == 23 {
+		// a condition that is a constant but no bool (after folding), in every position: the optimizer cannot
+		// decide the branch, the program must still compile (and fail when evaluated) or be rejected with an error
+		cond := []string{"1", "0", "\"yes\"", "[1]", "{a:1}", "1+1", "2.5", "sqrt(4)", "[]", "\"\"", "-1", "(1)"}[r.IntN(12)]
+		ifx := "if " + cond + " then 2 else 3"
+		if r.IntN(3) == 0 {
+			ifx = "let c=" + cond + "; a+(if c then 1 else 2)"
+		}
+		pos := []string{"%s", "[1, %s]", "x->%s", "(x->%s)(1)", "func g(x) %s; g(1)", "try %s catch 0", "{k:%s}", "max(1, %s)", "1+(%s)", "if a then (%s) else 0", "[1,2].map(x->%s)", "let q=(%s); q"}[r.IntN(12)]
+		if strings.HasPrefix(ifx, "let") {
+			pos = []string{"%s", "func g(x) %s; g(1)", "x->%s", "[1, %s]", "try %s catch 0"}[r.IntN(5)]
+		}
+		return fmt.Sprintf(pos, ifx), "constant-non-bool-condition"
+	}
 	if c.Index%32 == 7 {
 		// calls whose callee is an expression (not a name) that may itself fail to compile: the error path of the
 		// code generator builds its message from the registered functions
@@ -226,7 +240,7 @@ func c04Input(c *wk.Case) (string, string) {
 		return pre + open, "unterminated"
 	default: // deep nesting / long chains
 		size := []int{16, 32, 64}[r.IntN(3)] * 1024
-		fam := r.IntN(14)
+		fam := r.IntN(18)
 		unit, close, tail := "", "", ""
 		switch fam {
 		case 0:
@@ -260,6 +274,17 @@ func c04Input(c *wk.Case) (string, string) {
 		case 13:
 			unit, tail = "try ", "1"
 			close = " catch 2"
+		case 14:
+			unit, tail = "a+", "a" // chains over arguments: nothing to fold, every level reaches the code generator
+		case 15:
+			unit, tail = "a*b-", "a"
+		case 16:
+			unit, tail = "a<", "b"
+		case 17:
+			unit, tail = "a.b+", "a"
+		}
+		if fam >= 14 && r.IntN(2) == 0 {
+			size = []int{64, 128, 256, 1024}[r.IntN(4)] // a few dozen operators are enough for exponential work
 		}
 		n := (size - len(tail)) / (len(unit) + len(close))
 		if fam == 12 {
